@@ -26,9 +26,9 @@ type ErrSite struct {
 
 // reviewed exceptions: (enclosing top-level function, callee) -> reason
 var errDropAllowed = map[string]string{
-	"internal/cmd.NewBuildCmd|github.com/fatih/color.(Color).Fprint":   "best-effort printing of the error list to the report writer; the command's exit status is already decided by the returned error",
-	"internal/cmd.NewBuildCmd|github.com/fatih/color.(Color).Fprintln": "best-effort printing of the error list to the report writer",
-	"internal/cmd.NewBuildCmd|github.com/spf13/pflag.(FlagSet).MarkHidden": "flag registration",
+	"internal/cmd.NewBuildCmd|github.com/fatih/color.(Color).Fprint":             "best-effort printing of the error list to the report writer; the command's exit status is already decided by the returned error",
+	"internal/cmd.NewBuildCmd|github.com/fatih/color.(Color).Fprintln":           "best-effort printing of the error list to the report writer",
+	"internal/cmd.NewBuildCmd|github.com/spf13/pflag.(FlagSet).MarkHidden":       "flag registration",
 	"internal/cmd.NewBuildCmd|github.com/spf13/cobra.(Command).MarkFlagRequired": "fails only for an unknown flag name, which is a literal registered two lines above",
 }
 
